@@ -74,7 +74,10 @@ def classify(ev, rows):
         if x["op"] == "div" and x["a"][0]["op"] == "x" and ev["col"][x["a"][0]["i"] - 1] == 0:
             fams.add("qexpr-const-div-field-assert")
         if x["op"] == "or" and any(v.get("t") == "str" and v["c"] == [] for i in subtree_leaves(x, []) if ev["col"][i - 1] == 0 for v in leaf_values(i)):
-            fams.add("qexpr-or-with-empty-alternative-selects-nothing")
+            # field < "" next to another condition on the same field
+            cols = [ev["col"][i - 1] for i in subtree_leaves(x, []) if ev["col"][i - 1] != 0]
+            if len(cols) != len(set(cols)):
+                fams.add("qexpr-or-with-empty-alternative-selects-nothing")
     walk(ev["x"])
     return fams
 
@@ -121,8 +124,11 @@ def run(ctx):
         for ln in bad:
             ev = json.loads(lines[ln - 1])
             fams = classify(ev, rows)
-            if fams and all(ctx.is_known(f) is not None or f in assume for f in fams):
-                for f in fams:
+            kf = [f for f in fams if ctx.is_known(f) is not None or f in assume]
+            if kf:
+                # a recorded finding is present in the expression: not reported again (families
+                # that are present but not recorded, e.g. because they are repaired, do not count)
+                for f in kf:
                     known.setdefault(f, []).append(ev["src"])
             else:
                 unknown.append((ln, ev, fams))
